@@ -20,6 +20,9 @@ package main
 //   pkg.v[]    an element object of the package-level table v reached through a local alias
 //              (`x := v[k]`, `for _, x := range v`) -- writes only
 //   local.x / deref  writes through a local map/slice/pointer of unknown origin
+//   handout:pkg.v  a function RETURNS the pointer held in the package-level variable v (or &v): the process-wide
+//              object is handed out, e.g. by a constructor helper that shares one default object, and ends up in
+//              per-set data where a later `x.F.G = ..` writes it
 //   escape:T.f a function RETURNS the slice or map stored in T.f (or a reslicing of it, or a local bound to it)
 //              instead of a copy: the shared container is handed to the caller, who may treat it as its own.
 //              Recorded as a write; on the read paths of C19 it must therefore be in the allow-list.
@@ -985,6 +988,12 @@ func (w *lkWalk) walk(root ast.Node) {
 		case *ast.ReturnStmt:
 			if w.ownRet[x] {
 				for _, r := range x.Results {
+					if loc := w.pkgObjectHandedOut(r); loc != "" {
+						// a pointer to a package-level object leaves the function: it ends up in
+						// per-set data, and a write through it (x.F = .. on whatever holds it) is a
+						// write of the process-wide object.
+						w.acc("handout:"+loc, true, r.Pos())
+					}
 					if loc := w.sharedContainer(r); loc != "" {
 						// the caller receives the container of a shared object itself, not a copy:
 						// whatever the caller does to its result, it does to the shared object
@@ -1335,6 +1344,40 @@ func (w *lkWalk) sharedContainer(e ast.Expr) string {
 			return ""
 		}
 		return w.fieldAl[v]
+	}
+	return ""
+}
+
+// pkgObjectHandedOut: e is a package-level variable of pointer type, or the address of (a field of) a
+// package-level variable, or a local that was bound to one of those.
+func (w *lkWalk) pkgObjectHandedOut(e ast.Expr) string {
+	e = unparen(e)
+	addr := false
+	if u, ok := e.(*ast.UnaryExpr); ok && u.Op == token.AND {
+		addr = true
+		e = rootOf(u.X)
+	}
+	id, ok := e.(*ast.Ident)
+	if !ok {
+		return ""
+	}
+	v, ok := w.g.info.Uses[id].(*types.Var)
+	if !ok {
+		return ""
+	}
+	if v.Parent() != w.g.pkg.Scope() {
+		if a := w.alias[v]; !addr && strings.HasPrefix(a, "pkg.") && !strings.HasSuffix(a, "[]") {
+			if _, isPtr := v.Type().Underlying().(*types.Pointer); isPtr {
+				return a
+			}
+		}
+		return ""
+	}
+	if addr {
+		return "pkg." + v.Name()
+	}
+	if _, isPtr := v.Type().Underlying().(*types.Pointer); isPtr {
+		return "pkg." + v.Name()
 	}
 	return ""
 }
